@@ -164,7 +164,8 @@ def battery(r, xs, u, kind, cap=12, ood=True, hints=True):
     n = len(xs)
     ops = [{"op": "len"}, {"op": r.choice(["iter", "into_iter"]), "hints": hints}]
     if has_seq(kind):
-        idx = set([0, n - 1, n // 2, 63, 64, 65] + [r.randrange(max(1, n)) for _ in range(cap)])
+        idx = set([0, n - 1, n // 2, 63, 64, 65] + [r.randrange(max(1, n)) for _ in range(cap)]
+                  + [k * n // 16 for k in range(16)])
         idx = sorted(i for i in idx if 0 <= i < n)
         if n <= cap:
             idx = list(range(n))
@@ -335,6 +336,17 @@ def recipe_episodes(seed, kinds, per_case=1, cap=10, reject=0.3, reload_modes=()
                     continue
                 ops.append({"op": "reload", "mode": m})
                 ops += battery(r, xs, u, kind, cap=max(3, cap // 2), ood=ood)
+            eps.append(episode("recipe", ops))
+    # two densities in one sequence (upper bits with one 1 per 5..9 bits in one region, nearly all ones in the
+    # other): the selection structures on the upper bits leave their usual span classes; every sequential back-end
+    for dense, sparse, gap in ((5000, 1000, 48), (3000, 1500, 30), (200, 3000, 7)):
+        xs = list(range(dense)) + [dense + gap * j for j in range(1, sparse + 1)]
+        u = xs[-1] + r.choice([0, 1, 100])
+        for kind in SEQ_KINDS + SEQDICT_KINDS[:2]:
+            if kind not in kinds:
+                continue
+            ops = build_ops(r, xs, u, kind, how=r.choice(["extend", "from", "cfill"]))
+            ops += battery(r, xs, u, kind, cap=cap, ood=False, hints=False)
             eps.append(episode("recipe", ops))
     return eps
 
